@@ -613,6 +613,33 @@ func setup() {
 	bc.VerifSetClient(q.Client())
 }
 
+// advisoryManySmall is NOT part of the verdict (the property quantifies over pool outputs, not over
+// configurations): with maxTxNumber at the hard constant types.MaxTxsPerBlock, the accumulation, which
+// adds tx.Size() but not the 3-4 bytes of field framing each transaction costs inside a block, can
+// pass its own budget check while the encoded block is larger than MaxBlockSize.
+func advisoryManySmall(r *vx.Run) {
+	s := types.GetDefaultCfgstring()
+	s = strings.Replace(s, "maxTxNumber = 10000", fmt.Sprintf("maxTxNumber = %d", types.MaxTxsPerBlock), 2)
+	c2 := types.NewChain33Config(s)
+	q := queue.New("channel")
+	q.SetConfig(c2)
+	b2 := consensus.NewBaseClient(c2.GetModuleConfig().Consensus)
+	b2.VerifSetClient(q.Client())
+	n := int(types.MaxTxsPerBlock)
+	per := budget/n - 1
+	one := sized(spec{N: 1, Size: per}, 0, 5).pool
+	txs := make([]*types.Transaction, n)
+	for i := range txs {
+		t := *one
+		t.Nonce = int64(1<<20 + i) // same varint width for every i
+		txs[i] = &t
+	}
+	block := &types.Block{Height: 5, ParentHash: make([]byte, 32)}
+	b2.AddTxsToBlock(block, txs)
+	r.Note("advisory (not judged; configuration outside the quantifier): maxTxNumber=%d, %d transactions of %d bytes offered: %d taken, encoded block %d bytes, MaxBlockSize %d, over=%v",
+		types.MaxTxsPerBlock, n, per, len(block.Txs), block.Size(), hardBound, block.Size() > hardBound)
+}
+
 func alphabetA() []spec {
 	a := []spec{{N: 1}}
 	for _, b := range []string{"to-b58", "to-0x", "from-b58", "from-0x"} {
@@ -780,6 +807,7 @@ func main() {
 	close(jobs)
 	wg.Wait()
 
+	advisoryManySmall(r)
 	r.Note("limits as configured by the harness: height<%d:%d, <%d:%d, else %d; cfg.GetP answers %d/%d/%d; blacklist active from %d (cfg.IsFork: %v/%v)",
 		h1, lim0, h2, lim1, lim2, cfg.GetP(h1-1).MaxTxNumber, cfg.GetP(h1).MaxTxNumber, cfg.GetP(h2).MaxTxNumber, hb,
 		cfg.IsFork(hb-1, types.ForkAccountBlacklist), cfg.IsFork(hb, types.ForkAccountBlacklist))
